@@ -9,6 +9,7 @@ The source code is distributed under BSD license, see the file License.txt
 at the top-level directory.
 */
 #include "slu_mt_ddefs.h"
+#include "slu_mt_verif.h"
 
 void
 pxgstrf_mark_busy_descends(int_t pnum, int_t jcol, int_t *etree, 
@@ -57,6 +58,7 @@ pxgstrf_mark_busy_descends(int_t pnum, int_t jcol, int_t *etree,
     int_t *xsup;
 
     bcol_reg = *bcol;
+    if ( bcol_reg >= jcol ) SLU_VERIF_EV("Mark", pnum, jcol, *bcol);
     if ( bcol_reg < jcol ) {
 	
 	/* -----------------------------------------------------------
@@ -101,6 +103,14 @@ if (jcol >= LOCOL && jcol <= HICOL)
 	/* INVARIANT: *bcol must be the first column of the farthest
 	   busy supernode */
 	*bcol = fsupc;
+#ifdef SLU_MT_VERIF
+	{   /* report the set of columns marked busy for this panel */
+	    int_t vn = 0, vk, *vl = (int_t *) malloc((jcol + 1) * sizeof(int_t));
+	    for (vk = 0; vk < jcol; ++vk) if ( lbusy[vk] == jcol ) vl[vn++] = vk;
+	    SLU_VERIF_EVL("Mark", pnum, vl, vn, jcol, fsupc);
+	    free(vl);
+	}
+#endif
 			 
     } /* if bcol_reg < jcol */
 }
